@@ -186,6 +186,10 @@ func (c *Context) ActorOf(actor vivid.Actor, options ...vivid.ActorOption) (vivi
 	c.childrenLock.Unlock()
 
 	c.tell(true, childCtx.Ref(), new(vivid.OnLaunch))
+	// OnLaunch 已入队：放开创建时占住的邮箱，此前缓存的消息排在 OnLaunch 之后处理
+	if held, ok := childCtx.mailbox.(*mailbox.UnboundedMailbox); ok {
+		held.Release()
+	}
 	c.Logger().Debug("actor spawned", log.String("path", childCtx.Ref().GetPath()))
 
 	// 通知事件流
